@@ -17,7 +17,9 @@ def suites_for(prop):
     import suite_s
     import suite_c
     import suite_f
+    import suite_a
     table["F"] = suite_f.SuiteF
+    table["A"] = suite_a.SuiteA
     table["S"] = suite_s.SuiteS
     table["C"] = suite_c.SuiteC
     c = claims.CLAIMS.get(prop)
